@@ -699,13 +699,13 @@ func ruleC07Merge(c *Ctx) {
 	} else {
 		c.OK(rule, FnName(fn)+" | merge value", c.P.InstrPos(st[0]), "s.r.volume.location[offset] = volume.location[offset]", false)
 	}
-	c.Guard(rule, fn, st, "overwrite live entry", isUnlockCall,
+	c.Guard(rule, fn, st, "overwrite live entry", lockOrUnlock,
 		atom("live <= preloaded", "-$0.r.volume.location[*] +var(volume).location[*] >=0"),
 		atom("preloaded entry known", "+var(volume).location[*] !=0"),
-		Need{Desc: "server lock (re)taken", Instr: isWLockCall},
+		needWLock("server lock (re)taken"),
 		okcall("replica.PreloadLunMap"))
-	c.Guard(rule, fn, CallsTo(fn, "replica.sendToCreateHole"), "request hole", isUnlockCall,
-		Need{Desc: "server lock (re)taken", Instr: isWLockCall})
+	c.Guard(rule, fn, CallsTo(fn, "replica.sendToCreateHole"), "request hole", lockOrUnlock,
+		needWLock("server lock (re)taken"))
 	// the private copy: location re-allocated before preload
 	var alloc []ssa.Instruction
 	eachInstr(fn, func(in ssa.Instruction) {
